@@ -35,7 +35,9 @@ func (osFS) Remove(path string) error {
 	return robustio.RemoveAll(path)
 }
 func (osFS) RemoveDir(path string) error {
-	return robustio.RemoveAll(path)
+	// Only ever remove an empty directory: a blob may have been
+	// received into it since it was seen empty.
+	return os.Remove(path)
 }
 
 func (osFS) Rename(oldname, newname string) error {
